@@ -3,6 +3,7 @@
 from __future__ import annotations
 
 import importlib
+import io
 import os
 import shutil
 import sys
@@ -40,6 +41,8 @@ def shards(tier, seed):
         out.append({"kind": "programs", "spec": sp, "n": 45 if tier == "quick" else 6000})
     for closed in ([2], [0, 2], [1, 2], [0, 1, 2]):
         out.append({"kind": "programs", "spec": "popen" if len(closed) % 2 else "python", "n": 30 if tier == "quick" else 1500, "closed_fds": closed})
+    for so in ("none", "stringio"):
+        out.append({"kind": "programs", "spec": "popen" if so == "none" else "python", "n": 30 if tier == "quick" else 1500, "stderr_object": so})
     out.append({"kind": "purity"})
     return out
 
@@ -157,7 +160,7 @@ def raw_writes_with_inherited_closed_fds(res, gw, rng, m, closed):
     """A worker whose initiator had standard descriptors closed when it started it: the lowest free descriptors are then
     handed to whatever the worker opens first. Raw writes to descriptors 1 and 2 still never enter the protocol stream."""
     n = rng.choice((1, 1, 2, 100, 8000))
-    label = f"worker started with descriptors {closed} closed; remote code writes {9 * n} bytes to fd 2, fd 1, sys.stderr, sys.stdout"
+    label = f"worker started with {'descriptors ' + str(closed) + ' closed' if isinstance(closed, list) else closed}; remote code writes {9 * n} bytes to fd 2, fd 1, sys.stderr, sys.stdout"
     res.count("raw_write_probes_with_closed_descriptors")
     try:
         ch = gw.remote_exec(RAW_STDERR_PROBE)
@@ -222,7 +225,17 @@ def run_programs(spec):
             sys.stdout = sys.stderr = sys.__stdout__ = sys.__stderr__ = sink
             for fd in closed:
                 os.close(fd)
-        gw, tee = make_gateway(group, spec["spec"])
+        stderr_object = spec.get("stderr_object")
+        if stderr_object:
+            # the initiating program has replaced sys.stderr by something without a file descriptor (None under pythonw /
+            # services, a StringIO under a test runner or IDE) at the moment the worker is started
+            saved_stderr = sys.stderr
+            sys.stderr = None if stderr_object == "none" else io.StringIO()
+        try:
+            gw, tee = make_gateway(group, spec["spec"])
+        finally:
+            if stderr_object:
+                sys.stderr = saved_stderr
         for fd in closed:
             try:
                 os.fstat(fd)  # taken by one of the pipes to the worker meanwhile: leave it
@@ -239,8 +252,8 @@ def run_programs(spec):
                 break
             if i % 15 == 7:
                 inside_close_after_peer_end(res, gw, rng, m)
-            if closed and i % 3 == 0:
-                if not raw_writes_with_inherited_closed_fds(res, gw, rng, m, closed):
+            if (closed or stderr_object) and i % 3 == 0:
+                if not raw_writes_with_inherited_closed_fds(res, gw, rng, m, closed or f"sys.stderr={stderr_object}"):
                     break
             if i % 15 == 3:
                 same_size_same_mtime_rewrite(res, gw, moddir, f"verif_c06_ss_{spec['shard']}_{i}", m)
